@@ -134,6 +134,8 @@ def classify_nested(case, info):  # pylint:disable=unused-argument
         labels.append("symbols")
     if any(c in t for t in case["renderings"] for c in "uox"):
         labels.append("lower-case")
+    if any(len(t) > 250 for t in case["renderings"]):
+        labels.append("longer-than-250-characters")
     mixed = any(mixed_adjacent(t) for t in case["renderings"])
     if mixed:
         labels.append("mixed-adjacent")
@@ -171,6 +173,12 @@ def strategy_nested(tier):
         count = draw(st.integers(2, 3))
         renderings = [gen.render(draw, ast) for _ in range(count - 1)]
         renderings.append(gen.render(draw, ast, spaces=draw(st.booleans()), redundant=False))
+        if draw(st.sampled_from(range(6))) == 0:
+            # a very long run of whitespace between two tokens (whitespace never changes the grouping, however much)
+            pad = draw(st.sampled_from([" ", "\t", "\n"])) * draw(st.integers(120, 600))
+            cut = draw(st.integers(0, renderings[-1].count("]")))
+            pieces = renderings[-1].split("]")
+            renderings.append("]".join(pieces[:cut + 1]) + ("]" + pad if cut + 1 < len(pieces) else pad) + "]".join(pieces[cut + 1:]))
         return {"ast": ast, "renderings": renderings, "resolve_first": draw(st.booleans())}
 
     return build()
@@ -242,10 +250,10 @@ def check_small_chain(case):
 
 STAGES = [
     Stage(name="nested", kind="hyp", check=check_nested, classify=classify_nested, strategy=strategy_nested,
-          budget={"quick": 250, "thorough": 2500}, key=lambda c: c["renderings"], floors={"mixed-adjacent": 0.25},
+          budget={"quick": 250, "thorough": 1500}, key=lambda c: c["renderings"], floors={"mixed-adjacent": 0.25, "longer-than-250-characters": 0.05},
           sample=lambda c: {"renderings": c["renderings"], "expected": ref.canonical(c["ast"])}),
     Stage(name="chains", kind="hyp", check=check_chain, classify=classify_chain, strategy=strategy_chain,
-          budget={"quick": 250, "thorough": 2500}, key=lambda c: c["s"], floors={"mixed-adjacent": 0.5},
+          budget={"quick": 250, "thorough": 1500}, key=lambda c: c["s"], floors={"mixed-adjacent": 0.5},
           sample=lambda c: {"s": c["s"], "expected": ref.canonical(ref.split_by_precedence(c["atoms"], c["gaps"]))}),
     Stage(name="small-chains", kind="enum", check=check_small_chain, classify=lambda c, i: ([f"len={len(c['gaps']) + 1}"], True),
           enumerate=enumerate_small_chains, exhaustive=True),
